@@ -347,6 +347,26 @@ def check(case, obs):
         okd = not raised(outd) and all(np.array_equal(np.asarray(a), np.asarray(b))
                                        for a, b in zip(outd.fitting['beads_params'], out.fitting['beads_params']))
         obs.claim('spelling', okd, lambda: 'bare channel %r with default clustering channels: %r' % (chans[0], outd if raised(outd) else 'another result'))
+    # ---- a caller-supplied clustering function (documented parameter) that numbers the same groups in another order:
+    # values are assigned by brightness, not by label, so the calibration is the same
+    if exact and npop >= 3 and case['np_seed'] % 4 in (1, 2):
+        shift = 1 + case['perm_seed'] % (npop - 1)
+        relabel = (np.asarray(lab) * (1 if case['np_seed'] % 4 == 1 else -1) + shift) % npop     # a rotation / a reflection of the labels
+
+        def own_clustering(data, n_clusters, **kw):
+            return relabel.copy()
+        np.random.seed(case['np_seed'])
+        outc = call(mef.get_transform_fxn, d, mef_values if nch > 1 else mef_values[0], chans if nch > 1 else chans[0],
+                    clustering_fxn=own_clustering, clustering_channels=clustering_channels, statistic_fxn=stat, full_output=True)
+        okc = not raised(outc) and all(
+            np.allclose(np.asarray(a, dtype=float), np.asarray(b, dtype=float), rtol=1e-9, atol=0)
+            for c in range(nch) for a, b in ((outc.fitting['beads_params'][c], out.fitting['beads_params'][c]),
+                                             (outc.selection['mef'][c], out.selection['mef'][c]),
+                                             (outc.selection['rfi'][c], out.selection['rfi'][c]))
+            if np.shape(a) == np.shape(b) or True)
+        obs.label('relabelled_groups')
+        obs.claim('pairing', okc, lambda: 'the same groups under other labels (shift %d) give another calibration: %r' % (
+            shift, outc if raised(outc) else [list(p_) for p_ in outc.fitting['beads_params']]))
     # ---- asking for the diagnostic figures as well changes nothing in what is reported (same data, same seed)
     if case['np_seed'] % 8 == 5:
         import matplotlib
